@@ -130,4 +130,127 @@ Proof.
   - apply (proj1 (Hspec blk Hb)).
   - rewrite <- Hr2, N2Nat.id. symmetry. apply ks_eta.
 Qed.
+Definition imgT64 (t : tks64) (pad4 : list byte) (rest : list (list bool)) : list (list bool) :=
+  (rbytes (N.to_nat (ks_rounds nib (tk_ks nib t))) ++ bitsB pad4)
+    ++ concat (map hbT4 (ks_sched nib (tk_ks nib t))) ++ bitsB (tk_tweak nib t) ++ rest.
+
+(* one skinny64_set_tweak(tk, tweak, size) call on the object, as its whole-function specification *)
+Definition c_set_tweak64 (R : nat) (q : tweak_req) (ks : list (list bool)) : list (list bool) :=
+  nth 0 (w_set_tweak64 bool xorb false R (N.to_nat (snd q)) (match fst q with None => true | Some _ => false end)
+           [ks; bitsB (match fst q with Some b => b | None => [] end)]) [].
+
+Lemma ks_eta64 : forall k : keysched nib, {| ks_rounds := ks_rounds nib k; ks_sched := ks_sched nib k |} = k.
+Proof. intros [rr ss]. reflexivity. Qed.
+
+Definition invT64 (R : nat) (t : tks64) : Prop :=
+  length (ks_sched nib (tk_ks nib t)) = 40 /\ length (tk_tweak nib t) = 8 /\ N.to_nat (ks_rounds nib (tk_ks nib t)) = R.
+
+Lemma c_set_tweak64_step : forall R (t : tks64) (q : tweak_req) pad4 rest,
+  tweak_valid 8 q = true -> length pad4 = 0 -> R <= 40 -> invT64 R t ->
+  c_set_tweak64 R q (imgT64 t pad4 rest) = imgT64 (snd (m64_set_tweak t (fst q) (snd q))) pad4 rest
+  /\ invT64 R (snd (m64_set_tweak t (fst q) (snd q))).
+Proof.
+  intros R [[rr ss] tw] [b sz] pad4 rest Hv Hp HR (Hs & Ht & Hr). cbn [ks_sched ks_rounds tk_ks tk_tweak fst snd] in *.
+  unfold tweak_valid in Hv. cbn [snd] in Hv. apply andb_true_iff in Hv. destruct Hv as [Hv1 Hv2]. apply N.leb_le in Hv1, Hv2.
+  assert (Hsz : N.to_nat sz <= 8) by lia.
+  unfold m64_set_tweak, set_tweak. cbn [tk_ks tk_tweak ks_rounds ks_sched].
+  assert (Hok : size_ok 1 8 sz = true) by (unfold size_ok; apply andb_true_iff; split; apply N.leb_le; lia).
+  rewrite Hok. cbn [snd]. rewrite Hr. split.
+  - unfold c_set_tweak64, imgT64. cbn [fst snd ks_sched ks_rounds tk_ks tk_tweak]. rewrite Hr.
+    set (hdr := map (c8_of_bits bool false) (rbytes R) ++ pad4).
+    assert (Ehdr : bitsB hdr = rbytes R ++ bitsB pad4) by (unfold hdr; rewrite map_app; f_equal).
+    assert (Lhdr : length hdr = 4) by (unfold hdr; rewrite app_length, map_length, rbytes_len; unfold byte in *; lia).
+    rewrite <- Ehdr.
+    destruct b as [b|].
+    + rewrite (w_set_tweak64_model R (N.to_nat sz) false b tw hdr ss rest [] Lhdr Hs Ht HR Hsz). reflexivity.
+    + pose proof (w_set_tweak64_model R (N.to_nat sz) true [] tw hdr ss rest [] Lhdr Hs Ht HR Hsz) as Hm. cbv zeta in Hm.
+      unfold byte in *. rewrite Hm. reflexivity.
+  - unfold invT64. cbn [ks_sched ks_rounds tk_ks tk_tweak]. repeat split.
+    + unfold xor_tk1. rewrite !sched_loop_len. exact Hs.
+    + destruct b; [apply pad_to_length | reflexivity].
+    + exact Hr.
+Qed.
+
+Lemma c_set_tweak64_fold : forall R pad4 rest (qs : list tweak_req) (t : tks64),
+  Forall (fun q => tweak_valid 8 q = true) qs -> length pad4 = 0 -> R <= 40 -> invT64 R t ->
+  fold_left (fun ks q => c_set_tweak64 R q ks) qs (imgT64 t pad4 rest)
+  = imgT64 (fold_left (fun t q => snd (m64_set_tweak t (fst q) (snd q))) qs t) pad4 rest
+  /\ invT64 R (fold_left (fun t q => snd (m64_set_tweak t (fst q) (snd q))) qs t).
+Proof.
+  intros R pad4 rest qs. induction qs as [|q qs IH]; intros t Hq Hp HR Hi; [split; [reflexivity | exact Hi]|].
+  inversion Hq as [|q' qs' Hv Hqs]; subst. cbn [fold_left].
+  destruct (c_set_tweak64_step R t q pad4 rest Hv Hp HR Hi) as [E Hi']. rewrite E. apply IH; assumption.
+Qed.
+
+Theorem c_tweak_history_then_encrypt64_spec :
+  forall (zk : nat) code fuel pl' sh' c t,                               (* skinny64_ecb_encrypt at the round count of zk+1 *)
+  In zk [1; 2] ->
+  flat [ksf] fuel [0; 0; 0]%N [(ksf, N.of_nat (skinny64_rounds (S zk)))] code = Some (pl', sh', c, t) ->
+  check_block_w callP sizes64 2 4 c (enc_offs 4 4 (skinny64_rounds (S zk)))
+    (enc_stepsW poly (k64_subcells poly pxor pand pzero pone) (k64_enc_linear poly pxor pzero pone) (skinny64_rounds (S zk)))
+    (enc_stepsW bool (k64_subcells bool xorb andb false true) (k64_enc_linear bool xorb false true) (skinny64_rounds (S zk))) = true ->
+  forall (key hdr prevtw out blk st : list byte) (sched : list (half nib)) (rest : list (list bool)) (mrest : mem bool) (qs : list tweak_req),
+  length key = 8 * zk -> length hdr = 4 -> length sched = 40 -> length prevtw = 8 ->
+  length out = 8 -> length blk = 8 -> length st = 8 ->
+  Forall (fun q => tweak_valid 8 q = true) qs ->
+  (* the tweakable object after set_tweaked_key and the history qs of set_tweak calls *)
+  let obj1 := nth 0 (w_set_tweaked_key64 bool xorb false true (length key)
+                       ((bitsB hdr ++ concat (map hbT4 sched) ++ bitsB prevtw ++ rest) :: bitsB key :: mrest)) [] in
+  let obj2 := fold_left (fun ks q => c_set_tweak64 (skinny64_rounds (S zk)) q ks) qs obj1 in
+  let ksobj := firstn 164 obj2 in                                           (* &tk.ks *)
+  exists st', interp [ksf] callB fuel [0; 0; 0]%N (([bitsB out; bitsB blk; ksobj; bitsB st] : mem bool), []) code = Some (pl', st', t)
+    /\ nth 0 (fst st') [] = bitsB (skinny64_tweaked_enc zk key (latest_tweak 8 (zeros 8) qs) blk)
+    /\ nth 1 (fst st') [] = bitsB blk /\ nth 2 (fst st') [] = ksobj.
+Proof.
+  intros zk code fuel pl' sh' c t Hz Hflat Hcheck key hdr prevtw out blk st sched rest mrest qs Hk Hh Hs Hp Ho Hb Hst Hqs.
+  cbv zeta. unfold byte in *.
+  assert (Hk' : 8 <= length key <= 16) by (destruct Hz as [<-|[<-|[]]]; lia).
+  set (t0 := {| tk_ks := {| ks_rounds := 0%N; ks_sched := sched |}; tk_tweak := prevtw |} : tks64).
+  destruct (w_set_tweaked_key64_model key prevtw hdr sched 0%N rest mrest Hk' Hh Hs Hp) as [_ HW]. cbv zeta in HW.
+  unfold byte in *. rewrite HW. cbn [nth]. clear HW. rewrite Hk.
+  fold t0.
+  set (t1 := snd (m64_set_tweaked_key t0 (Some key) (N.of_nat (8 * zk)))).
+  set (R := skinny64_rounds (S zk)) in *.
+  assert (HR : 0 < R /\ R <= 40) by (unfold R; destruct Hz as [<-|[<-|[]]]; cbn; lia).
+  (* facts about t1 from the model-level theorem with the empty history *)
+  destruct (c04_tweak_history64 zk t0 key [] Hz Hk Hs) as (_ & Htw1 & Hr1 & _). cbn [fold_left] in Htw1, Hr1. fold t1 in Htw1, Hr1.
+  assert (Hi1 : invT64 R t1).
+  { unfold invT64. repeat split.
+    - unfold t1, m64_set_tweaked_key, set_tweaked_key.
+      rewrite (size_ok_true 8 (2 * 8) (8 * zk)) by (destruct Hz as [<-|[<-|[]]]; lia).
+      cbn [snd tk_ks]. unfold set_key_inner.
+      destruct (Nat.eqb _ 8); cbn [ks_sched mk_ks]; unfold set_tk1, set_tk2, set_tk3; rewrite !sched_loop_len; exact Hs.
+    - replace (tk_tweak _ t1) with (latest_tweak 8 (zeros 8) []) by (symmetry; exact Htw1). reflexivity.
+    - replace (ks_rounds _ (tk_ks _ t1)) with (N.of_nat R) by (symmetry; exact Hr1). apply Nat2N.id. }
+  assert (E1 : (rbytes (N.to_nat (ks_rounds nib (tk_ks nib t1))) ++ skipn 4 (bitsB hdr))
+                 ++ concat (map hbT4 (ks_sched nib (tk_ks nib t1))) ++ bitsB (tk_tweak nib t1) ++ rest
+               = imgT64 t1 (skipn 4 hdr) rest).
+  { unfold imgT64. rewrite skipn_map. reflexivity. }
+  unfold byte in *. rewrite E1.
+  assert (Lp : length (skipn 4 hdr) = 0) by (rewrite skipn_length; unfold byte in *; lia).
+  destruct (c_set_tweak64_fold R (skipn 4 hdr) rest qs t1 Hqs Lp (proj2 HR) Hi1) as [E2 Hi2]. rewrite E2.
+  set (t2 := fold_left (fun t q => snd (m64_set_tweak t (fst q) (snd q))) qs t1) in *.
+  destruct Hi2 as (Hs2 & Ht2 & Hr2).
+  destruct (c04_tweak_history64 zk t0 key qs Hz Hk Hs) as (_ & _ & _ & Hspec & _). fold t1 t2 in Hspec.
+  (* &tk.ks = the first 456 bytes *)
+  set (hdr' := map (c8_of_bits bool false) (rbytes R) ++ skipn 4 hdr).
+  assert (Ehdr : bitsB hdr' = rbytes R ++ bitsB (skipn 4 hdr)) by (unfold hdr'; rewrite map_app; f_equal).
+  assert (Lhdr : length hdr' = 4) by (unfold hdr'; rewrite app_length, map_length, rbytes_len; unfold byte in *; lia).
+  assert (F : firstn 164 (imgT64 t2 (skipn 4 hdr) rest) = ks_image64 (bitsB hdr') (ks_sched nib (tk_ks nib t2))).
+  { unfold imgT64, ks_image64, ks_image. rewrite Hr2, <- Ehdr.
+    assert (L : length (bitsB hdr' ++ concat (map hbT4 (ks_sched nib (tk_ks nib t2)))) = 164).
+    { rewrite app_length, map_length, sched_image_len64. unfold byte in *. lia. }
+    rewrite app_assoc, <- L, firstn_app, Nat.sub_diag, firstn_O, app_nil_r. apply firstn_all. }
+  unfold byte in *. rewrite F.
+  destruct (enc64_final code fuel R pl' sh' c t (proj1 HR) (proj2 HR) Hflat Hcheck out blk st hdr' (ks_sched nib (tk_ks nib t2))
+              Ho Hb Hst Lhdr Hs2) as [st' [Hint [Hout [H1 H2]]]].
+  { unfold ks_image64, ks_image. rewrite Ehdr. apply field_val_rounds.
+    apply N.le_lt_trans with (m := 40%N); [lia | vm_compute; reflexivity]. }
+  exists st'. repeat split; try assumption.
+  rewrite Hout. f_equal.
+  replace {| ks_rounds := N.of_nat R; ks_sched := ks_sched nib (tk_ks nib t2) |} with (tk_ks nib t2).
+  - apply (proj1 (Hspec blk Hb)).
+  - rewrite <- Hr2, N2Nat.id. symmetry. apply ks_eta64.
+Qed.
 Print Assumptions c_tweak_history_then_encrypt128_spec.
+Print Assumptions c_tweak_history_then_encrypt64_spec.
